@@ -271,7 +271,7 @@ RECURSIVE E(_, _, _), EvalSeq(_, _, _, _, _), X(_, _, _), ExecB(_, _, _, _), Cal
           CallFn(_, _, _, _, _), Loop(_, _, _, _, _, _, _), Assign(_, _, _, _, _),
           AssignSeq(_, _, _, _, _, _), Clauses(_, _, _, _, _, _, _), ClauseLoop(_, _, _, _, _, _, _, _, _, _),
           EvalNamed(_, _, _, _, _), CallBuiltin(_, _, _, _, _), CallMethod(_, _, _, _, _, _),
-          SortWithKey(_, _, _, _, _), MapCall(_, _, _, _, _, _)
+          SortWithKey(_, _, _, _, _, _), MapCall(_, _, _, _, _, _)
 
 (* evaluate a sequence of expressions left to right *)
 EvalSeq(es, i, env, m, acc) ==
@@ -560,8 +560,15 @@ MapCall(f, items, i, m, line, acc) ==
     IF i > Len(items) \/ ~Ok(m) THEN [m |-> m, vs |-> acc]
     ELSE LET x == CallV(f, <<items[i]>>, <<>>, m, line) IN MapCall(f, items, i + 1, x.m, line, Append(acc, x.v))
 
-SortWithKey(items, keyf, rev, m, line) ==
-    LET ks == IF keyf.t = "none" THEN [m |-> m, vs |-> items] ELSE MapCall(keyf, items, 1, m, line, <<>>) IN
+(* the key function runs WHILE the argument is being iterated: the container is locked during
+   those calls and released afterwards, also when a call fails *)
+KeysUnderLock(keyf, items, la, m, line) ==
+    IF keyf.t = "none" THEN [m |-> m, vs |-> items]
+    ELSE LET r == MapCall(keyf, items, 1, Lock(m, la), line, <<>>) IN
+         [m |-> Unlock(r.m, la, IF Ok(r.m) THEN "exhausted" ELSE "error"), vs |-> r.vs]
+
+SortWithKey(items, la, keyf, rev, m, line) ==
+    LET ks == KeysUnderLock(keyf, items, la, m, line) IN
     IF ~Ok(ks.m) THEN R(ks.m, NoneV)
     ELSE LET s == StableSort(items, ks.vs, ks.m.heap) IN
          IF ~s.ok THEN TypeE(ks.m, line)
@@ -666,14 +673,14 @@ CallBuiltin(name, pos, named, m, line) ==
                   keyf == NamedVal(named, N_key, NoneV)
                   rev == NamedVal(named, N_reverse, BoolV(FALSE)) IN
               IF ~io.ok THEN TypeE(m, line)
-              ELSE SortWithKey(io.items, keyf, Truth(rev, h), m, line))
+              ELSE SortWithKey(io.items, io.a, keyf, Truth(rev, h), m, line))
     ELSE IF name = "min" \/ name = "max" THEN
         (IF n = 0 \/ ~NamedOnly(named, {N_key}) THEN Arity(m, line)
          ELSE LET io == IF n = 1 THEN IterOf(pos[1], h) ELSE [ok |-> TRUE, items |-> pos, a |-> 0]
                   keyf == NamedVal(named, N_key, NoneV) IN
               IF ~io.ok THEN TypeE(m, line)
               ELSE IF Len(io.items) = 0 THEN R(Raise(m, "value", line), NoneV)
-              ELSE LET ks == IF keyf.t = "none" THEN [m |-> m, vs |-> io.items] ELSE MapCall(keyf, io.items, 1, m, line, <<>>) IN
+              ELSE LET ks == KeysUnderLock(keyf, io.items, io.a, m, line) IN
                    IF ~Ok(ks.m) THEN R(ks.m, NoneV)
                    ELSE LET hh == ks.m.heap cnt == Len(io.items)
                             bad == \E i, j \in 1..cnt : i < j /\ Cmp(ks.vs[i], ks.vs[j], hh) = "err"
@@ -822,4 +829,23 @@ RunModule(stmts, cap, tr) ==
         fr == NewFrame(M0(cap, tr), names, [i \in 1..Len(names) |-> UnboundV])
         r == ExecB(stmts, 1, <<fr.a>>, fr.m)
     IN r.m
+
+(* ------------------------------------------------------------------ sessions
+   Several chunks evaluated one after another on the same module (each chunk = one eval_module
+   call on the same evaluator).  A failing chunk leaves its partial effects; the next chunk starts
+   with an empty call stack, and -- the properties' rule -- with every iteration lock released. *)
+NoErr == [kind |-> "", line |-> 0]
+RECURSIVE AssignedChunks(_, _), RunChunks(_, _, _, _, _)
+AssignedChunks(chunks, i) == IF i > Len(chunks) THEN {} ELSE AssignedS(chunks[i], 1) \cup AssignedChunks(chunks, i + 1)
+RunChunks(chunks, i, env, m, acc) ==
+    IF i > Len(chunks) THEN [m |-> m, res |-> acc]
+    ELSE LET m0 == [m EXCEPT !.out = <<>>, !.err = NoErr, !.depth = 0]
+             r == ExecB(chunks[i], 1, env, m0)
+             m1 == Ev(r.m, [e |-> "chunk_end", a |-> i, why |-> r.m.err.kind])
+         IN RunChunks(chunks, i + 1, env, m1, Append(acc, [out |-> r.m.out, err |-> r.m.err]))
+RunSession(chunks, cap, tr) ==
+    LET names == SetToSeq(AssignedChunks(chunks, 1))
+        fr == NewFrame(M0(cap, tr), names, [i \in 1..Len(names) |-> UnboundV])
+    IN RunChunks(chunks, 1, <<fr.a>>, fr.m, <<>>)
+SessionInDomain(res) == \A i \in 1..Len(res) : res[i].err.kind # "spec_domain"
 =============================================================================
